@@ -164,3 +164,101 @@ Theorem C15_isolation_refuted_D8 :
     /\ at_rest s = true /\ hcounters s = Ctr 1 1 0 0 1.
 Proof. exact isolation_refuted_D8. Qed.
 Print Assumptions C15_isolation_refuted_D8.
+
+(* ---- the retry window ------------------------------------------------------------------------- *)
+
+(* C15_retry_discipline with the window explicit.  tstep = the post loop with clock readings as label
+   arguments (any script of times); stop_allowed w e = the vendored cenkalti/backoff v2.2.1 rule
+   `MaxElapsedTime != 0 && elapsed > MaxElapsedTime` (w = -1, "retries disabled": every elapsed time
+   >= 0 stops, so the first failure is final).  Erasing the times gives a run of post_step (so
+   C15_retry_discipline holds for t_p s), and a body is given up only by a NextBackOff call whose
+   elapsed time, measured from the start of that request's own post loop, exceeds the window. *)
+Theorem C15_retry_window : forall (cancellable : bool) (w hstart : Z) (ls : list tlabel) (s : tstate),
+  run (tstep false cancellable w hstart) tinit ls = Some s ->
+  (exists pls, run (post_step cancellable) pinit pls = Some (t_p s))
+  /\ (p_status (t_p s) = SDropped ->
+        exists created now, t_created s = Some created /\ t_decided s = Some now
+                            /\ stop_allowed w (now - created) = true)
+  /\ (p_status (t_p s) <> SDropped -> t_decided s = None).
+Proof. exact retry_window. Qed.
+Print Assumptions C15_retry_window.
+
+(* The variant that builds the policy once in the constructor and copies it without Reset (tstep
+   true: the elapsed time is measured from the handler's creation) violates it: handler created at 0,
+   window 2 s, a request starts at 2.3 s, fails once, NextBackOff 1 ms later: given up after 1 ms of
+   its window; the current code retries on the same script. *)
+Theorem C15_retry_window_legacy_refuted :
+  exists s created now,
+    run (tstep true false 2000000000 0) tinit legacy_script = Some s
+    /\ p_status (t_p s) = SDropped /\ p_hist (t_p s) = [Failed]
+    /\ t_created s = Some created /\ t_decided s = Some now
+    /\ stop_allowed 2000000000 (now - created) = false
+    /\ exists s', run (tstep false false 2000000000 0) tinit legacy_script = Some s'
+                  /\ p_phase (t_p s') = PTry /\ n_retried (p_ctr (t_p s')) = 1%nat /\ n_dropped (p_ctr (t_p s')) = 0%nat.
+Proof. exact retry_window_legacy_refuted. Qed.
+Print Assumptions C15_retry_window_legacy_refuted.
+
+(* ---- flush notifications ---------------------------------------------------------------------- *)
+
+(* notified = calls of flush.Coordinator.NotifyFlush.  In every state: calls made + calls still owed
+   (one per part of a flush being merged or posted, one per request that has not returned) = the
+   number of parts of all flushes read from the sink; at rest all have been made. *)
+Theorem C15_notifications_count : forall (cm mr : nat) (dyn : list str) (utf8ok : str -> bool) ls s,
+  run (hstep cm mr dyn utf8ok) (hinit cm mr) ls = Some s ->
+  notified s + notif_pending dyn s = notif_total dyn s
+  /\ (at_rest s = true -> notified s = notif_total dyn s).
+Proof. exact notifications_count. Qed.
+Print Assumptions C15_notifications_count.
+
+(* Without dynamic headers a flush has exactly one part, so: exactly one NotifyFlush per flush,
+   whether the flush is empty or not and whatever the upstream answers (this is what the Lambda
+   extension's WaitForFlush relies on). *)
+Theorem C15_one_notification_per_flush : forall (cm mr : nat) (utf8ok : str -> bool) ls s,
+  run (hstep cm mr [] utf8ok) (hinit cm mr) ls = Some s ->
+  at_rest s = true -> notified s = length (received s).
+Proof. exact one_notification_per_flush. Qed.
+Print Assumptions C15_one_notification_per_flush.
+
+(* With dynamic headers (n :: dyn non-empty) a flush is notified once per distinct header key among
+   its series: not at all when it is empty (a WaitForFlush for it never returns), several times when
+   its series carry different values.  (cmd/lambda-extension/main.go sets the key "dynamic-header",
+   the forwarder reads "dynamic-headers": the setting is not disabled there.) *)
+Theorem C15_notifications_dynamic : forall (cm mr : nat) (n : str) (dyn : list str) (utf8ok : str -> bool) ls s,
+  run (hstep cm mr (n :: dyn) utf8ok) (hinit cm mr) ls = Some s ->
+  at_rest s = true ->
+  notified s = list_sum (map (fun ms => length (remove_dups (item_pkey (n :: dyn) <$> concat ms))) (received s))
+  /\ parts_of (n :: dyn) [] = 0.
+Proof. exact notifications_dynamic. Qed.
+Print Assumptions C15_notifications_dynamic.
+
+(* ---- shutdown: the boundary of the property --------------------------------------------------- *)
+
+(* rstep = hstep plus Run's behaviour after cancellation (Close, the token re-acquisition tail,
+   return).  C15's quantifier does not include shutdown, and the property does not survive it: in
+   sd_run the context is cancelled right after a flush was read from the sink; Run's tail takes the only
+   request token before the flush goroutine asks for it and Run returns.  sd_x is in no request, no
+   counter mentions it, and its goroutine can never post: no token is free and nobody holds one. *)
+Theorem C15_shutdown_refuted :
+  exists s, run (rstep 1 1 [] (fun _ => true) false) (rinit 1 1) sd_run = Some s
+    /\ r_returned s = true
+    /\ In sd_x (items_received (r_h s))
+    /\ ~ In sd_x (concat (map r_part (reqs (r_h s))))
+    /\ gors (r_h s) = [GPosting [([], [sd_x])]]
+    /\ req_free (r_h s) = 0 /\ holding_req (r_h s) = 0
+    /\ rstep 1 1 [] (fun _ => true) false s (RH (PartPost 0 0)) = None
+    /\ hcounters (r_h s) = Ctr 1 1 0 0 0
+    /\ run (rstep 1 1 [] (fun _ => true) true) (rinit 1 1) sd_run = None.
+Proof. exact shutdown_refuted. Qed.
+Print Assumptions C15_shutdown_refuted.
+
+(* With the proposed repair (patched = true: the tail waits for the flush goroutines, notes/C15.md)
+   shutdown is complete: once Run has returned, every item ever read from the sink is in a request
+   that has ended, and nothing is running. *)
+Theorem C15_shutdown_patched_complete : forall (cm mr : nat) (dyn : list str) (utf8ok : str -> bool) ls s,
+  0 < mr ->
+  run (rstep cm mr dyn utf8ok true) (rinit cm mr) ls = Some s -> r_returned s = true ->
+  at_rest (r_h s) = true
+  /\ Permutation (items_received (r_h s)) (concat (map r_part (reqs (r_h s))))
+  /\ Forall (fun r => p_phase (r_post r) = PEnd) (reqs (r_h s)).
+Proof. exact shutdown_patched_complete. Qed.
+Print Assumptions C15_shutdown_patched_complete.
